@@ -1,7 +1,6 @@
 (* Correspondence check for C04. *)
-From GV Require Import Base.Prelude Model.C03 Model.C04.
+From GV Require Export Base.Prelude Model.C03 Model.C04.
 
-Definition J a f t s e := {| j_atom := a; j_from := f; j_to := t; j_start := s; j_stop := e |}.
 
 (* atoms (outer, inner); list of (minimal residence, implementation's jump rows) *)
 Definition case := (list (list Z * list Z) * list (Z * list jump))%type.
